@@ -104,7 +104,6 @@ func VerifC05(args []string) {
 	}
 }
 
-
 // vfConfigs reads the configuration list argument: "all" = the 16 subsets,
 // otherwise a comma-separated list of 4-bit strings.
 func vfConfigs(args []string, i int) []string {
